@@ -36,7 +36,7 @@ fn meta() -> Meta {
     Meta {
         id: "C10",
         level: "exploration",
-        rule: "(i) every target string of <= 5 (quick) / 6 (thorough) tokens over {'{', '}', ',', a, e-acute, _Default, W} through Log::enabled and Log::log, with and without an additional writer; (ii) 6 message shapes x absent optional fields x key-values through 10 output kinds; (iii) specification strings: special inputs (the token sweep is C17's); (iv) basename {app, empty, a-umlaut-pp, a.b} x discriminant {none, d, e-acute} x suffix {log, none, l.g, a multi-byte one, restart-0000} x start time on/off x naming (6 schemes + custom formats of 4/10/20/30 characters and three with multi-byte characters, with and without current infix) x append on/off through start-W-R-W-restart-W-shutdown; (v) every single near-miss file name of C14's alphabet x naming x cleanup; (vi) recursive logging (1 and 2 levels deep) against 10 output kinds with and without text filter; (vii) write-mode parameters at their extremes; distinct_nontrivial = distinct cases whose input contains a brace, a multi-byte character, an empty part or a pre-existing file; (viii) recursive logging (a Display that logs) racing with set_new_spec under the controlled scheduler, all schedules with <= 2 / 3 preemptions (a deadlock among threads blocked for real is a verdict); and four rotating records followed by shutdown() with the background cleanup thread under the controlled scheduler",
+        rule: "(i) every target string of <= 5 (quick) / 6 (thorough) tokens over {'{', '}', ',', a, e-acute, _Default, W} through Log::enabled and Log::log, with and without an additional writer; (ii) 6 message shapes x absent optional fields x key-values through 13 output kinds (the syslog writer over datagram, stream, UDP and TCP among them); (iii) specification strings: special inputs (the token sweep is C17's); (iv) basename {app, empty, a-umlaut-pp, a.b} x discriminant {none, d, e-acute} x suffix {log, none, l.g, a multi-byte one, restart-0000} x start time on/off x naming (6 schemes + custom formats of 4/10/20/30 characters and three with multi-byte characters, with and without current infix) x append on/off through start-W-R-W-restart-W-shutdown; (v) every single near-miss file name of C14's alphabet x naming x cleanup; (vi) recursive logging (1 and 2 levels deep) against 13 output kinds with and without text filter; (vii) write-mode parameters at their extremes; distinct_nontrivial = distinct cases whose input contains a brace, a multi-byte character, an empty part or a pre-existing file; (viii) recursive logging (a Display that logs) racing with set_new_spec under the controlled scheduler, all schedules with <= 2 / 3 preemptions (a deadlock among threads blocked for real is a verdict); and four rotating records followed by shutdown() with the background cleanup thread under the controlled scheduler",
         assumptions: vec![
             "documented panics are kept out of the alphabets (FileSpec::try_from on a path without file name, invalid strftime format strings, use_utc after local time was used)".into(),
             "a hang is a case that does not finish within 10 s".into(),
@@ -125,8 +125,10 @@ enum Kind {
     Writer,
     Capture,
     SyslogTcp,
+    SyslogStream,
+    SyslogUdp,
 }
-const KINDS: [Kind; 11] = [
+const KINDS: [Kind; 13] = [
     Kind::File(ModeK::Direct),
     Kind::File(ModeK::BufDont(32)),
     Kind::File(ModeK::Async(1, 16, 0)),
@@ -138,6 +140,8 @@ const KINDS: [Kind; 11] = [
     Kind::Writer,
     Kind::Capture,
     Kind::SyslogTcp,
+    Kind::SyslogStream,
+    Kind::SyslogUdp,
 ];
 
 struct Built {
@@ -146,6 +150,7 @@ struct Built {
     /// target to use so that the record reaches the output kind under test
     target: &'static str,
     _sock: Option<std::os::unix::net::UnixDatagram>,
+    _udp: Option<std::net::UdpSocket>,
     _caps: Vec<FdCapture>,
     _sc: Scratch,
 }
@@ -155,6 +160,7 @@ fn build_kind(k: Kind, env: &Env, spec: &str) -> Result<Built, (String, String)>
     let spec = LogSpecification::parse(spec).map_err(|e| ("build".to_string(), e.to_string()))?;
     let base = Logger::with(spec).error_channel(ErrorChannel::File(env.err.clone()));
     let mut sock = None;
+    let mut udp = None;
     let mut caps = Vec::new();
     let mut target = "m";
     let lb = match k {
@@ -172,6 +178,37 @@ fn build_kind(k: Kind, env: &Env, spec: &str) -> Result<Built, (String, String)>
         Kind::Capture => {
             caps.extend(FdCapture::start(1, sc.path().join("out.txt")));
             base.log_to_stdout().write_mode(WriteMode::SupportCapture)
+        }
+        Kind::SyslogStream => {
+            let p = sc.path().join("st.sock");
+            let listener = std::os::unix::net::UnixListener::bind(&p).map_err(|e| ("machinery".to_string(), e.to_string()))?;
+            std::thread::Builder::new()
+                .name("fxv-syslog-sink".into())
+                .spawn(move || {
+                    if let Ok((mut c, _)) = listener.accept() {
+                        let mut buf = [0u8; 4096];
+                        while matches!(std::io::Read::read(&mut c, &mut buf), Ok(n) if n > 0) {}
+                    }
+                })
+                .ok();
+            let w = SyslogWriter::builder(SyslogConnection::try_stream(&p).map_err(|e| ("machinery".to_string(), e.to_string()))?, SyslogLineHeader::Rfc5424("id".into()), SyslogFacility::LocalUse0)
+                .max_log_level(LevelFilter::Trace)
+                .build()
+                .map_err(|e| ("machinery".to_string(), e.to_string()))?;
+            target = "{S}";
+            base.do_not_log().add_writer("S", w)
+        }
+        Kind::SyslogUdp => {
+            let server = std::net::UdpSocket::bind("127.0.0.1:0").map_err(|e| ("machinery".to_string(), e.to_string()))?;
+            let addr = server.local_addr().map_err(|e| ("machinery".to_string(), e.to_string()))?;
+            server.set_nonblocking(true).ok();
+            let w = SyslogWriter::builder(SyslogConnection::try_udp("127.0.0.1:0".parse::<std::net::SocketAddr>().unwrap(), addr).map_err(|e| ("machinery".to_string(), e.to_string()))?, SyslogLineHeader::Rfc3164, SyslogFacility::LocalUse0)
+                .max_log_level(LevelFilter::Trace)
+                .build()
+                .map_err(|e| ("machinery".to_string(), e.to_string()))?;
+            udp = Some(server);
+            target = "{S}";
+            base.do_not_log().add_writer("S", w)
         }
         Kind::SyslogTcp => {
             // a listener on the loopback interface that reads and discards
@@ -212,6 +249,7 @@ fn build_kind(k: Kind, env: &Env, spec: &str) -> Result<Built, (String, String)>
         handle,
         target,
         _sock: sock,
+        _udp: udp,
         _caps: caps,
         _sc: sc,
     })
@@ -296,7 +334,7 @@ fn recursion_case(k: Kind, depth: u8, filter: bool) -> Result<(), (String, Strin
 
 fn namings() -> Vec<(String, Naming)> {
     let mut v: Vec<(String, Naming)> = NG.iter().map(|n| (n.short().to_string(), n.naming())).collect();
-    for (name, fmt) in [("c4", "%H%M"), ("c10", "%Y-%m-%d"), ("c20", "r%Y-%m-%d_%H-%M-%S"), ("c30", "%Y-%m-%d_%H-%M-%S_%Y-%m-%d"), ("r4", "r%j"), ("dot", "%Y.%m.%d_%H.%M.%S"), ("cjk", "%Y年%m月%d日%H時%M分%S秒"), ("mid", "%Y-%m-%d_%H-%M-%S·%3f"), ("c16é", "r%Y-%m-%d_%H-%Mé"), ("badspec", "r%Y-%Q_%H"), ("trailing%", "r%Y-%m-%d_%"), ("literal", "current")] {
+    for (name, fmt) in [("c4", "%H%M"), ("c10", "%Y-%m-%d"), ("c20", "r%Y-%m-%d_%H-%M-%S"), ("c30", "%Y-%m-%d_%H-%M-%S_%Y-%m-%d"), ("r4", "r%j"), ("dot", "%Y.%m.%d_%H.%M.%S"), ("cjk", "%Y年%m月%d日%H時%M分%S秒"), ("mid", "%Y-%m-%d_%H-%M-%S·%3f"), ("c16é", "r%Y-%m-%d_%H-%Mé"), ("badspec", "r%Y-%Q_%H"), ("trailing%", "r%Y-%m-%d_%"), ("literal", "current"), ("offset", "r%Y-%m-%d_%H-%M-%S%z"), ("zone", "r%Y%m%d%H%M%S%:z")] {
         v.push((format!("{name}+cur"), Naming::TimestampsCustomFormat { current_infix: Some("cur"), format: fmt }));
         v.push((format!("{name}+direct"), Naming::TimestampsCustomFormat { current_infix: None, format: fmt }));
         v.push((format!("{name}+emptycur"), Naming::TimestampsCustomFormat { current_infix: Some(""), format: fmt }));
@@ -357,10 +395,12 @@ fn fileconfig_case(basename: &str, discr: Option<&str>, suffix: Option<&str>, st
 
 // ---------------------------------------------------------------- (v) pre-populated directories
 
-const NEAR: [&str; 24] = [
+const NEAR: [&str; 26] = [
     "app", "appé.log", "app_.log", "app_r.log", "app_r1.log", "app_r12.log", "app_rX.log", "app_r00001_old.log", "app_r00001.log.gz.gz", "app_r2024.log",
     "app_r9999-99-99_99-99-99.log", "app_r2024-05-15_12-30-10.restart-", "app_r2024-05-15_12-30-10.restart-abcd.log", "app_r2024-05-15_12-30-10.restart-99999.log",
     "app_rCURRENT.log.gz", "app_r4294967296.log", "app_r4294967295.log", "app_r4294967294.log", "app_r99999.log", "app_r100000.log", "app_é.log", "app_r\u{0301}.log", "app_r0000é.log", "app_r00000.log.gz",
+    // local times that do not exist / exist twice in the zone the check runs in (Europe/Berlin)
+    "app_r2021-03-28_02-30-00.log", "app_r2023-10-29_02-30-00.log",
 ];
 
 fn prepop_case(name: &str, naming: NamingK, clean: CleanK, append: bool, as_dir: bool) -> Result<(), (String, String)> {
@@ -750,6 +790,8 @@ fn record(out: &mut Out, r: Result<(), Fail>, case: Value, nontrivial_key: Optio
 }
 
 fn run_unit(tier: &str, unit: usize, out: &mut Out) {
+    // a zone with daylight saving time: file names can denote local times that do not exist
+    std::env::set_var("TZ", "Europe/Berlin");
     let tlen = if tier == "quick" { 4 } else { 5 };
     let mut u = unit;
     if u < n_target_units() {
